@@ -6,6 +6,8 @@ import FsVerif.Proofs.BufExtra
 import FsVerif.Proofs.Fleet
 import FsVerif.Proofs.SlotBelt3
 import FsVerif.Proofs.CBeltRoom
+import FsVerif.Proofs.SlotBind
+import FsVerif.Proofs.CBeltBind
 namespace FsVerif.Props.C07
 open FsVerif PosStore
 
@@ -372,5 +374,35 @@ theorem cbelt_put_accepted (cfg : CCfg) (ops : List CBelt.Op) (p tid : Nat) (x :
     simp only [CBelt.level] at hroom ⊢
     have hlt : s.items.length + s.ready.length < s.cfg.cap := by omega
     simp [hlt]
+
+/-! … a `get` with a granted retrieval of the caller's own returns the item bound to that reservation, and cancelling a waiting or a
+granted request is accepted, on both conveyors in every reachable state (the binding invariant of Proofs/SlotBind.lean /
+CBeltBind.lean: the ValueError / IndexError / RuntimeError branches of `get` and `reserve_get_cancel` are dead for valid calls) -/
+
+theorem slot_get_accepted (cfg : SlotCfg) (ops : List SlotBelt.Op) (p tid : Nat)
+    (h : ∃ t ∈ (SlotBelt.run (SlotBelt.init cfg) ops).getRes, t.id = tid ∧ t.proc = p) :
+    ∃ e ∈ (SlotBelt.run (SlotBelt.init cfg) ops).resItems, ((SlotBelt.run (SlotBelt.init cfg) ops).get p tid).2 = .item e.item :=
+  let ⟨e, he, hr, _⟩ := (SlotBelt.run_bd ops _ (SlotBelt.init_bd cfg)).get_accept p tid h
+  ⟨e, he, hr⟩
+
+theorem cbelt_get_accepted (cfg : CCfg) (ops : List CBelt.Op) (p tid : Nat)
+    (h : ∃ t ∈ (CBelt.run (CBelt.init cfg) ops).getRes, t.id = tid ∧ t.proc = p) :
+    ∃ e ∈ (CBelt.run (CBelt.init cfg) ops).resItems, ((CBelt.run (CBelt.init cfg) ops).get p tid).2 = .item e.item :=
+  let ⟨e, he, hr, _⟩ := (CBelt.run_bd ops _ (CBelt.init_bd cfg)).get_accept p tid h
+  ⟨e, he, hr⟩
+
+theorem slot_cancelGet_accepted (cfg : SlotCfg) (ops : List SlotBelt.Op) (tid : Nat)
+    (h : ∃ t, t ∈ (SlotBelt.run (SlotBelt.init cfg) ops).getQ ++ (SlotBelt.run (SlotBelt.init cfg) ops).getRes ∧ t.id = tid) :
+    ((SlotBelt.run (SlotBelt.init cfg) ops).cancelGet tid).2 = .ok :=
+  (SlotBelt.run_bd ops _ (SlotBelt.init_bd cfg)).cancelGet_accept tid h
+
+theorem cbelt_cancelGet_accepted (cfg : CCfg) (ops : List CBelt.Op) (tid : Nat)
+    (h : ∃ t, t ∈ (CBelt.run (CBelt.init cfg) ops).getQ ++ (CBelt.run (CBelt.init cfg) ops).getRes ∧ t.id = tid) :
+    ((CBelt.run (CBelt.init cfg) ops).cancelGet tid).2 = .ok :=
+  (CBelt.run_bd ops _ (CBelt.init_bd cfg)).cancelGet_accept tid h
+
+/-- non-vacuity: the granted retrieval 2 of actor 1 on a slotted conveyor is served with item 5 -/
+example : ((SlotBelt.run (SlotBelt.init { cap := 2, delay := 1 })
+    [.reservePut 0, .put 0 0 { id := 5 }, .ev, .ev, .ev, .ev, .reserveGet 1]).get 1 1).2 = .item { id := 5 } := by decide +kernel
 
 end FsVerif.Props.C07
